@@ -118,6 +118,9 @@ mod imp {
                 }
             }
         }
+        fn size_hint(&self) -> (usize, Option<usize>) {
+            self.0.size_hint()
+        }
     }
 
     fn next_work() -> usize {
@@ -127,7 +130,7 @@ mod imp {
             w.ensure_child(c);
             // scripts beyond those given default to "ready at once"
             while w.scripts.len() <= c {
-                w.scripts.push(crate::world::Script { steps: vec![], tail: "done".into(), tail_ok: true });
+                w.scripts.push(crate::world::Script { steps: vec![], tail: "done".into(), tail_ok: true, hint: 0 });
             }
             c
         })
@@ -356,7 +359,9 @@ mod imp {
         while rng.chance(20) {
             steps.push(step("p"));
         }
-        scripts.push(ScriptS { steps, tail: "done".into(), tail_ok: true });
+        // what the source stream reports as its size hint (collect sizes its output from it)
+        let hint = if rng.chance(50) { 0 } else { 1 + rng.below(3) as u8 };
+        scripts.push(ScriptS { steps, tail: "done".into(), tail_ok: true, hint });
         // work scripts: enough for n items x (map layers + terminal)
         let nwork = n * 4 + 2;
         let err_pct = if fallible { [0, 15, 40][rng.below(3) as usize] } else { 0 };
@@ -373,7 +378,7 @@ mod imp {
                 steps.push(s);
             }
             let ok = !rng.chance(err_pct);
-            scripts.push(ScriptS { steps, tail: "done".into(), tail_ok: ok });
+            scripts.push(ScriptS { steps, tail: "done".into(), tail_ok: ok, hint: 0 });
         }
         // a panic injected at one poll of the source or of a closure future (C02: unwinding out of the driver)
         if profile == "panic" {
